@@ -780,6 +780,10 @@ func (fx *FnCtx) ret(x *ssa.Return) {
 	for i, c := range fx.fc.Ensures {
 		env := fx.env(fx.cur)
 		env.results = results
+		// in postconditions, parameter names denote entry values
+		for n, pv := range fx.paramTerm {
+			env.bound[n] = pv
+		}
 		t, err := env.elabBool(c.E)
 		if err != nil {
 			fx.errf("binding failure: %s ensures %d (%s): %v", fx.key, i, c.Text, err)
